@@ -175,12 +175,24 @@ def cases(tier, seed):
                "yield_p": rng.choice((0.3, 0.7, 1.0))}
 
 
+def _token_class(kind):
+    if kind in FALSY:
+        return "falsy-explicit"
+    return {"nested-tuple": "tuple"}.get(kind, kind)
+
+
+def _via_class(m):
+    if m.startswith("pickle") and m[6:].isdigit():
+        return "pickle-protocol<2" if int(m[6:]) < 2 else "pickle-protocol>=2"
+    return m
+
+
 def _feat(case):
-    ms = sorted(set(case["methods"]))
+    ms = sorted({_via_class(m) for m in case["methods"]})
     via = ms[0] if len(ms) == 1 else "mixed"
     if case["topo"] == "same-bytes":
         via = "one-dumps-many-loads"
-    return "token=%s&via=%s" % (case["token"], via)
+    return "token=%s&via=%s" % (_token_class(case["token"]), via)
 
 
 class _Pool:
@@ -436,7 +448,7 @@ def _threads(case, ctx):
         ctx.count("critical_sections", len(g.entries))
         ctx.count("handovers", sum(1 for a, b in zip(g.entries, g.entries[1:]) if a != b))
         ctx.count("max_occupancy_checks")
-        gfeat = feat if gi == 0 else "token=%s&via=pickle5" % case["token2"]
+        gfeat = feat if gi == 0 else "token=%s&via=pickle-protocol>=2" % _token_class(case["token2"])
         if g.maxocc > 1:
             ctx.violation("threads:%s:two-holders-in-critical-section" % gfeat,
                           "occupancy of the identity group reached %d with %d threads on %d members"
